@@ -235,7 +235,7 @@ PROPS["C03"] = {
           M("c03_arc_atomic_1p2_2l", "thorough"), M("c03_arc_atomic_2p_1l_c", "thorough"), M("c03_arc_atomic_2p_2l", "thorough"), M("c03_arc_full_sync_1p2_2l", "thorough"), M("c03_arc_atomic_2p2_1l", "thorough")],
     "k": [
         H("c03::c03_same_allocation_arc_atomic", tier="thorough", inst="ChannelMultiArcAtomic<u32,2,2>", bounds="two listeners, one send (any u32), both take it; origin 0", oracle="both listeners yield the sent payload from the very same allocation (Arc::ptr_eq), nothing else", stubs=_C10_CH_STUBS, ignore_failed=_DEALLOC_ARTEFACT, group="g1", mem_gb=30, jobs=1),
-        H("c03::c03_same_allocation_ogre_arc_atomic", tier="thorough", inst="ChannelMultiOgreArcAtomic<u32,2,2>", bounds="same script", oracle="same data address behind both OgreArc handles", stubs=_C10_CH_STUBS, ignore_failed=_DEALLOC_ARTEFACT, group="g2", mem_gb=40, jobs=1),
+        H("c03::c03_same_allocation_ogre_arc_atomic", tier="thorough", inst="ChannelMultiOgreArcAtomic<u32,2,2>", bounds="same script", oracle="same data address behind both OgreArc handles", stubs=_C10_CH_STUBS, ignore_failed=_DEALLOC_ARTEFACT, group="g2", mem_gb=50, jobs=1),
     ],
     "k_budget": {"thorough": {"jobs": 1, "timeout_s": 2400, "mem_gb": 30}},
 }
